@@ -1,5 +1,6 @@
 """C19 — typecheck reports exactly the FSArray element-type violations."""
 from harness import sessions
+from harness.common import bud
 from harness.sessions import SB
 
 PROP = "C19"
@@ -153,7 +154,7 @@ def run(ctx, out, budget):
                 "conforming, non-conforming and null elements; owners indexed or reachable only through a reference. Oracle = "
                 "the generator's own reachability and subtree computation. Non-trivial = distinct sessions with >= 1 expected error.")
     rng = ctx.rng(0)
-    n = 300 if budget == "quick" else 40000
+    n = bud(budget, 300, 40000)
     evaluate(ctx, out, [gen_session(rng, rng.randint(1, 8)) for _ in range(n)])
 
 
